@@ -24,6 +24,17 @@ a subtype of the destination type.  `calls_ok_full_false` is the witness: a quer
 accepts (WFq / ArgsOK / Conforms / NoKnownTrigger hold) on which the engine calls
 `resolve_coercion("I0", "I1")` with `I1` not implementing `I0` (finding F-C21-1, confirmed on the
 real engine: corpus/C21.cases).
+
+`SchemaOK S ir` also contains, for a `@recurse` edge, the clause "the type the recursion continues on
+(`coerce_to`, else the edge's endpoint type) declares the edge with parameters that accept the edge's
+parameter tuple" (`edgeDeclOK` on `coerceTo.getD preType`; `recDeclOKAll` in the bridge's
+`RecClausesOK`).  The real frontend does NOT guarantee it either: `Schema::parse` lets an
+implementing type WIDEN the type of an inherited edge parameter (`interface A { e(x: Int!): [A] }`,
+`type B implements A { e(x: Int): [A] }`), the frontend completes an omitted `x` as `null` from `B`'s
+declaration, and from recursion depth 2 on (no coercion, case 4a) the engine resolves `e` on type `A`
+with `x = null` although `A` declares `x: Int!`.  `calls_ok_full_false_params` is the witness
+(finding F-C21-2, confirmed on the real engine: `resolve_neighbors("A", "e", {x: Null})`,
+corpus/C21.cases, oracle key `contract:param-value-not-of-declared-type`).
 -/
 import TrustfallModel.Proofs.InterpInvMain
 import TrustfallModel.Proofs.InterpInvWitness
@@ -71,6 +82,24 @@ theorem calls_ok_full_false :
       .panic "contract:coercion-target-not-subtype" := Witness.C21a.contract_broken
   obtain ⟨rows, hrows⟩ := Witness.C21a.plain_ok
   rw [hb, hrows] at this
+  cases this
+
+/-- Second refutation of the statement for every accepted query (finding F-C21-2): the parameter
+tuple of a `@recurse` edge is completed from the source type's declaration, but the recursion
+continues on the edge's endpoint type, whose declaration of the same parameter may be narrower. -/
+theorem calls_ok_full_false_params :
+    ¬ (∀ (S : SchemaView) (D : Data) (ir : IRQuery) (args : List (Name × Value)),
+        WFq ir = true → ArgsOK ir args = true → Conforms S D = true →
+        NoKnownTrigger D ir args = true →
+        interpret { Env.ofData D args with adapter := checkedAdapter S D } ir =
+          interpret (Env.ofData D args) ir) := by
+  intro h
+  have := h Witness.C21b.S Witness.C21b.D Witness.C21b.ir Witness.C21b.args
+    Witness.C21b.hyps.1 Witness.C21b.hyps.2.1 Witness.C21b.hyps.2.2.1 Witness.C21b.hyps.2.2.2
+  have hb : interpret { Env.ofData Witness.C21b.D Witness.C21b.args with
+      adapter := checkedAdapter Witness.C21b.S Witness.C21b.D } Witness.C21b.ir =
+      .panic "contract:params" := Witness.C21b.contract_broken
+  rw [hb, Witness.C21b.plain_rows] at this
   cases this
 
 /-- non-vacuity: the hypotheses hold on a concrete world (schema with an edge, a tag imported into
@@ -161,5 +190,6 @@ end TF.C21.Compiled
 #print axioms TF.C21.calls_ok
 #print axioms TF.C21.no_contract_failure
 #print axioms TF.C21.calls_ok_full_false
+#print axioms TF.C21.calls_ok_full_false_params
 #print axioms TF.C21.Compiled.calls_ok_compiled
 #print axioms TF.C21.Compiled.no_contract_failure_compiled
